@@ -2,7 +2,7 @@
 import ast
 
 from sa.program import src, own_nodes, call_name, parent, kwarg, loc
-from sa import guards, poly
+from sa import guards, poly, resolve
 
 EXPLANATION = (
     "Static rules over pyiga/mlmatrix.py and mlmatrix_cy.pyx: (R15.1) per-level arrays are read with the level index of the "
@@ -641,7 +641,56 @@ def r15_11(ctx):
         ctx.decide('R15.11', f.qual, 'supports compared in parameter coordinates', True if coords else None, f.node)
 
 
+def r15_12(ctx):
+    """utils.kron_partial(As, rows, restrict=False) has nonzeros ONLY in the given rows: no exit returns the full Kronecker
+    product (multi_kron_sparse / scipy.sparse.kron of all factors) unless it is restricted to the rows (X[rows])."""
+    f = ctx.prog.func('pyiga.utils.kron_partial')
+    n = 0
+    for r in guards.returns_of(f.node):
+        if r.value is None:
+            continue
+        live = guards.specialise([r], {'restrict': False})
+        v = resolve.expand(live[0].value, r) if live and isinstance(live[0], ast.Return) else resolve.expand(r.value, r)
+        full = [c for c in ast.walk(v) if isinstance(c, ast.Call) and (call_name(c) or '').split('.')[-1] in ('multi_kron_sparse', 'kron')]
+        if not full:
+            n += 1
+            continue
+        t = src(v).replace(' ', '')
+        restricted = '[rows]' in t or '[rows,' in t
+        n += 1
+        ctx.decide('R15.12', f.qual, src(r)[:90], True if restricted else False, r,
+                   'full product restricted to the rows' if restricted else
+                   'with restrict=False this exit returns the FULL Kronecker product: the rows that were not requested carry the entries of '
+                   'the product instead of being zero (4 of 6 rows requested: rows 4, 5 differ)', definite=True)
+    if n:
+        ctx.met('R15.12', f.qual, '%d exits examined' % n, f.node, 'no exit returns the unrestricted product')
+
+
+def r15_13(ctx):
+    """get_transpose_idx_for_bidx maps entry k = (i, j) of a level pattern to the position of (j, i) WHATEVER order the pattern is
+    stored in: by value lookup (a dict keyed by (j, i)), or by composing two sort permutations.  ONE lexsort/argsort alone is the
+    transposition map only for a pattern stored in row-major order."""
+    f = ctx.prog.maybe_func(CY + '.get_transpose_idx_for_bidx')
+    if f is None:
+        ctx.undecided('R15.13', CY + '.get_transpose_idx_for_bidx', 'definition', None, 'not found')
+        return
+    sorts = [c for c in ast.walk(f.node) if isinstance(c, ast.Call) and (call_name(c) or '').split('.')[-1] in ('lexsort', 'argsort', 'sort', 'sorted')]
+    lookup = any(isinstance(x, ast.Subscript) and isinstance(x.ctx, ast.Store) and isinstance(x.slice, ast.Tuple) for x in ast.walk(f.node)) \
+        or any(isinstance(x, ast.Dict) or (isinstance(x, ast.Call) and call_name(x) == 'dict') for x in ast.walk(f.node))
+    if lookup and not sorts:
+        ctx.met('R15.13', f.qual, 'entries paired by value lookup', f.node)
+    elif len(sorts) == 1 and not lookup:
+        ctx.violated('R15.13', f.qual, src(sorts[0])[:80], sorts[0],
+                     'the permutation that sorts the entries by (column, row) is the transposition map only if the pattern is stored in row-major '
+                     'order: for a pattern from a COO matrix, from transpose() or hand-made (shuffled banded pattern: 24 of 24 entries wrong, not '
+                     'an involution) the data tensor is permuted to something that is not the transposed matrix')
+    else:
+        ctx.undecided('R15.13', f.qual, 'pairing of (i, j) with (j, i)', f.node, 'neither a plain lookup nor a single sort')
+
+
 def run(ctx):
+    r15_12(ctx)
+    r15_13(ctx)
     r15_11(ctx)
     r15_10(ctx)
     r15_9(ctx)
